@@ -82,12 +82,20 @@ impl ShapeIndex {
     }
 }
 
+fn invalid_data(msg: &'static str) -> Error {
+    Error::IoError(std::io::Error::new(std::io::ErrorKind::InvalidData, msg))
+}
+
 /// Read the content of a .shx file
 fn read_index_file<T: Read>(mut source: T) -> Result<Vec<ShapeIndex>, Error> {
     let header = header::Header::read_from(&mut source)?;
 
-    let num_shapes = ((header.file_length * 2) - header::HEADER_SIZE) / INDEX_RECORD_SIZE as i32;
-    let mut shapes_index = Vec::<ShapeIndex>::with_capacity(num_shapes as usize);
+    // The length comes from the file: the arithmetic is done in i64 where it cannot overflow,
+    // and a length shorter than the header is an error, not a negative count.
+    let num_shapes = (i64::from(header.file_length) * 2 - i64::from(header::HEADER_SIZE))
+        / INDEX_RECORD_SIZE as i64;
+    let num_shapes = usize::try_from(num_shapes).map_err(|_| invalid_data("invalid index file length"))?;
+    let mut shapes_index = Vec::<ShapeIndex>::with_capacity(num_shapes);
     for _ in 0..num_shapes {
         let offset = source.read_i32::<BigEndian>()?;
         let record_size = source.read_i32::<BigEndian>()?;
@@ -104,7 +112,15 @@ fn read_one_shape_as<T: Read, S: ReadableShape>(
     mut source: &mut T,
 ) -> Result<(record::RecordHeader, S), Error> {
     let hdr = record::RecordHeader::read_from(&mut source)?;
-    let record_size = hdr.record_size * 2;
+    // The content length (in 16-bit words) comes from the file: it cannot be
+    // negative and the length in bytes has to fit.
+    if hdr.record_size < 0 {
+        return Err(Error::InvalidShapeRecordSize);
+    }
+    let record_size = hdr
+        .record_size
+        .checked_mul(2)
+        .ok_or(Error::InvalidShapeRecordSize)?;
     let shape = S::read_from(&mut source, record_size)?;
     Ok((hdr, shape))
 }
@@ -134,7 +150,10 @@ impl<T: Read + Seek, S: ReadableShape> Iterator for ShapeIterator<'_, T, S> {
             // bytes between them.
             // The index alone tells which records exist: the iteration ends
             // when it is exhausted, wherever the last read left us in the file.
-            let start_pos = shapes_indices.next()?.offset * 2;
+            let start_pos = match shapes_indices.next()?.offset.checked_mul(2) {
+                Some(pos) if pos >= 0 => pos,
+                _ => return Some(Err(invalid_data("invalid record offset in the index"))),
+            };
             if start_pos != self.current_pos as i32 {
                 if let Err(err) = self.source.seek(SeekFrom::Start(start_pos as u64)) {
                     return Some(Err(err.into()));
@@ -148,8 +167,11 @@ impl<T: Read + Seek, S: ReadableShape> Iterator for ShapeIterator<'_, T, S> {
             Err(e) => return Some(Err(e)),
             Ok(hdr_and_shape) => hdr_and_shape,
         };
-        self.current_pos += record::RecordHeader::SIZE;
-        self.current_pos += hdr.record_size as usize * 2;
+        // read_one_shape_as made sure the record size is not negative
+        self.current_pos = self
+            .current_pos
+            .saturating_add(record::RecordHeader::SIZE)
+            .saturating_add(hdr.record_size as usize * 2);
         Some(Ok(shape))
     }
 
@@ -355,7 +377,12 @@ impl<T: Read + Seek> ShapeReader<T> {
             _shape: std::marker::PhantomData,
             source: &mut self.source,
             current_pos: header::HEADER_SIZE as usize,
-            file_length: (self.header.file_length as usize) * 2,
+            // a negative (invalid) length means there is nothing to iterate over
+            file_length: if self.header.file_length > 0 {
+                (self.header.file_length as usize) * 2
+            } else {
+                0
+            },
             shapes_indices: self.shapes_index.as_ref().map(|s| s.iter()),
         }
     }
@@ -453,12 +480,13 @@ impl<T: Read + Seek> ShapeReader<T> {
     /// was not constructed with [ShapeReader::with_shx]
     pub fn seek(&mut self, index: usize) -> Result<(), Error> {
         if let Some(ref shapes_index) = self.shapes_index {
-            let offset = shapes_index
-                .get(index)
-                .map(|shape_idx| (shape_idx.offset * 2) as u64);
-
-            match offset {
-                Some(n) => self.source.seek(SeekFrom::Start(n)),
+            match shapes_index.get(index) {
+                Some(shape_idx) => {
+                    // the offset comes from the file: no overflow in i64, and it must not be negative
+                    let offset = u64::try_from(i64::from(shape_idx.offset) * 2)
+                        .map_err(|_| invalid_data("invalid record offset in the index"))?;
+                    self.source.seek(SeekFrom::Start(offset))
+                }
                 None => self.source.seek(SeekFrom::End(0)),
             }?;
             Ok(())
